@@ -472,6 +472,7 @@ type FuncContract struct {
 	Pure      bool
 	Inline    bool
 	MayPanic  bool
+	OpaqueStrides bool // index terms of multi-slot arrays through an uninterpreted stride function
 	NoBody    bool // extern/trusted: contract is assumed, body not verified
 	Fresh     bool // results are fresh allocations
 	Props     []string
@@ -571,7 +572,7 @@ var clauseKeywords = map[string]bool{
 	"func": true, "loop": true, "type": true, "pred": true, "fn": true, "axiom": true, "lemma": true, "iface": true,
 	"ghostvar": true, "requires": true, "ensures": true, "invariant": true, "modifies": true, "pure": true,
 	"may_panic": true, "props": true, "ghost": true, "guarded_by": true, "immutable": true, "assume": true,
-	"start_at_loop": true, "inline_matching": true, "at": true, "assert": true, "autouse": true, "assume_at_acquire": true, "fresh": true, "trusted": true, "inline": true, "rely": true, "params": true, "results": true, "package": true,
+	"start_at_loop": true, "opaque_strides": true, "inline_matching": true, "assume_result": true, "at": true, "assert": true, "autouse": true, "assume_at_acquire": true, "fresh": true, "trusted": true, "inline": true, "rely": true, "params": true, "results": true, "package": true,
 }
 
 type rawClause struct {
@@ -657,13 +658,35 @@ func parseParams(s string) ([]CParam, error) {
 	if s == "" {
 		return nil, nil
 	}
+	// split on commas outside brackets (generic types: *PriorityQueue[K, V])
+	var parts []string
+	depth, start := 0, 0
+	for i, c := range s {
+		switch c {
+		case '[':
+			depth++
+		case ']':
+			depth--
+		case ',':
+			if depth == 0 {
+				parts = append(parts, s[start:i])
+				start = i + 1
+			}
+		}
+	}
+	parts = append(parts, s[start:])
 	var out []CParam
-	for _, part := range strings.Split(s, ",") {
-		f := strings.Fields(strings.TrimSpace(part))
-		if len(f) != 2 {
+	for _, part := range parts {
+		part = strings.TrimSpace(part)
+		i := strings.IndexAny(part, " \t")
+		if i < 0 {
 			return nil, fmt.Errorf("bad parameter %q", part)
 		}
-		out = append(out, CParam{f[0], f[1]})
+		name, typ := part[:i], strings.TrimSpace(part[i+1:])
+		if name == "" || typ == "" {
+			return nil, fmt.Errorf("bad parameter %q", part)
+		}
+		out = append(out, CParam{name, strings.ReplaceAll(typ, ", ", ",")})
 	}
 	return out, nil
 }
@@ -756,6 +779,16 @@ func (c *Contracts) LoadFile(path, defaultPkg string, extern bool) error {
 			}
 			curF.Ats = append(curF.Ats, &AtBlock{Callee: f[0], Ordinal: n})
 			curLoop = -1
+		case "assume_result":
+			if curF == nil || len(curF.Ats) == 0 || curLoop != -1 {
+				return fmt.Errorf("%s:%d: assume_result outside an at block", path, r.line)
+			}
+			cl, err := mkClause("assume", r)
+			if err != nil {
+				return err
+			}
+			ab := curF.Ats[len(curF.Ats)-1]
+			ab.Assumes = append(ab.Assumes, cl)
 		case "assert":
 			if curF == nil || len(curF.Ats) == 0 || curLoop != -1 {
 				return fmt.Errorf("%s:%d: assert outside an at block", path, r.line)
@@ -864,6 +897,11 @@ func (c *Contracts) LoadFile(path, defaultPkg string, extern bool) error {
 			curF.Inline = true
 		case "may_panic":
 			curF.MayPanic = true
+		case "opaque_strides":
+			if curF == nil {
+				return fmt.Errorf("%s:%d: opaque_strides outside func", path, r.line)
+			}
+			curF.OpaqueStrides = true
 		case "trusted":
 			curF.NoBody = true
 		case "fresh":
